@@ -97,12 +97,12 @@ func sliceLines(lines []string, seed string, maxDist int) []string {
 	return out
 }
 
-func (x *Exec) slicedQuery(o *Obligation, maxDist int, inst bool) string {
+func (x *Exec) slicedQuery(o *Obligation, maxDist int, inst bool, plainRounds ...int) string {
 	lines := x.lines[:o.Prefix]
 	if maxDist != fullQuery {
 		lines = sliceLines(lines, o.PC+" "+o.Goal, maxDist)
 	}
-	return x.assemble(lines, o, false, inst)
+	return x.assemble(lines, o, false, inst, plainRounds...)
 }
 
 const fullQuery = -2
@@ -121,8 +121,19 @@ func discharge(o *Obligation, timeout int, cross bool) SolverResult {
 			inst bool
 		}
 		var vs []variant
-		for _, inst := range []bool{false, true} {
-			q := o.exec.slicedQuery(o, k, inst)
+		for mode := 0; mode < 4; mode++ {
+			// 0: plain; 1: with ground pre-instantiation; 2: plain without the lemma families;
+			// 3: plain with single-phase, loosely matched lemma instances. All variants only add
+			// consequences of the hypotheses or drop hypotheses, so unsat of any one is a proof.
+			inst := mode == 1
+			var q string
+			if mode == 2 {
+				q = o.exec.slicedQuery(o, k, false, 0)
+			} else if mode == 3 {
+				q = o.exec.slicedQuery(o, k, false, -1)
+			} else {
+				q = o.exec.slicedQuery(o, k, inst)
+			}
 			if seen[q] {
 				continue
 			}
